@@ -56,6 +56,32 @@ func writerLayout(p *Program, fn *ssa.Function) ([]layoutElem, string, []string)
 			for i, pt := range parts {
 				elems[int64(i)] = pt
 			}
+		} else if res.Op == "call" && res.Fn != nil && res.Fn.String() == "(*bytes.Buffer).Bytes" && len(res.Args) == 1 {
+			// sequential writes into a buffer created empty in this call
+			B := res.Args[0].strip()
+			emptyAtStart := B.Op == "alloc"
+			if B.Op == "call" && B.Fn != nil && B.Fn.String() == "bytes.NewBuffer" && len(B.Args) == 1 {
+				a := stripConvTerm(B.Args[0])
+				emptyAtStart = a.IsNil() || (a.Op == "make" && len(a.Args) > 0 && isZeroInt(a.Args[0]))
+			}
+			if !emptyAtStart {
+				bestRes = "result is written onto " + prettyTerm(B)
+				return
+			}
+			i := int64(0)
+			for _, ev := range pr.Events {
+				if ev.Kind == "call" && ev.Callee != nil && strings.HasPrefix(ev.Callee.String(), "(*bytes.Buffer).") && len(ev.Args) > 0 && ev.Args[0].strip().Key() == B.Key() {
+					switch ev.Callee.Name() {
+					case "Write":
+						elems[i] = ev.Args[1]
+						i++
+					case "Bytes", "Len", "Grow", "Cap":
+					default:
+						bestRes = "the buffer is also changed by " + ev.Callee.Name()
+						return
+					}
+				}
+			}
 		} else {
 			if !(res.Op == "call" && res.Fn != nil && res.Fn.String() == "bytes.Join") {
 				bestRes = "result is " + prettyTerm(res)
@@ -65,7 +91,7 @@ func writerLayout(p *Program, fn *ssa.Function) ([]layoutElem, string, []string)
 			if sl.Op != "slice" || sl.Args[0].Op != "alloc" {
 				return
 			}
-			if sep, ok := stripConvTerm(res.Args[1]).StrVal(); !ok || sep != "" {
+			if sep, ok := stripConvTerm(res.Args[1]).StrVal(); !stripConvTerm(res.Args[1]).IsNil() && (!ok || sep != "") {
 				notes = append(notes, "the elements are joined with a non-empty separator")
 			}
 			for k, loc := range pr.State.heapLoc {
@@ -73,6 +99,15 @@ func writerLayout(p *Program, fn *ssa.Function) ([]layoutElem, string, []string)
 					if i, ok := loc.Args[1].IntVal(); ok {
 						elems[i] = pr.State.heap[k]
 					}
+				}
+			}
+		}
+		// a field handed to a marshaller goes in as it stands
+		for _, ev := range pr.Events {
+			if ev.Kind == "call" && ev.Callee != nil && ev.Callee.Name() == "Marshal" && len(ev.Args) > 0 {
+				a := stripConvTerm(ev.Args[0].strip())
+				if !verbatimField(a, recv) {
+					notes = append(notes, "the value marshalled into the record is computed ("+prettyTerm(a)+"), not the entry's field as it stands: what is decoded differs from what was encoded")
 				}
 			}
 		}
@@ -151,6 +186,15 @@ func readerLayout(p *Program, fn *ssa.Function) ([]layoutElem, []string) {
 			}
 		}
 		recv := &Term{Op: "sym", Name: "p:" + fn.Params[0].Name(), Type: fn.Params[0].Type()}
+		// a decoded record is what the bytes say: no field is set to a constant of the decoder's own
+		for _, e := range pr.Events {
+			if e.Kind == "store" && e.Addr.Op == "fa" && e.Addr.Args[0].Key() == recv.Key() && e.Val.IsConst() && !e.Val.IsNil() {
+				if iv, ok := e.Val.IntVal(); ok && iv == 0 {
+					continue
+				}
+				notes = append(notes, "the decoder sets "+e.Addr.Name+" to a constant of its own ("+prettyTerm(e.Val)+") instead of what the record holds")
+			}
+		}
 		dest := func(t *Term, from int) string {
 			has := func(x *Term) bool { return x != nil && x.contains(func(y *Term) bool { return y.Key() == t.Key() }) }
 			for i := from; i < len(pr.Events); i++ {
@@ -530,10 +574,18 @@ func ruleWriterWidths(c *Ctx) {
 			bad = append(bad, pair.w+"/"+pair.r+" not found")
 			continue
 		}
-		c.P.Simulate(w, SimConfig{}, func(pr *PathResult) {
+		c.P.Simulate(w, SimConfig{MaxVisits: 10}, func(pr *PathResult) {
 			n++
 			res := pr.Results[0]
 			var size *Term
+			if res.Op == "slice" && len(res.Args) == 4 && res.Args[0].Op == "alloc" && res.Args[1].Op == "none" && res.Args[2].Op == "none" {
+				// a composite literal []byte{…}: the whole backing array
+				if pt, ok := res.Args[0].Type.(*types.Pointer); ok {
+					if at, ok := pt.Elem().Underlying().(*types.Array); ok {
+						res = &Term{Op: "slice", Type: res.Type, Args: []*Term{res.Args[0], res.Args[1], intTerm(at.Len()), res.Args[3]}}
+					}
+				}
+			}
 			if res.Op == "make" && len(res.Args) > 0 {
 				size = res.Args[0]
 			} else if res.Op == "slice" && len(res.Args) == 4 && res.Args[0].Op == "alloc" {
@@ -551,6 +603,9 @@ func ruleWriterWidths(c *Ctx) {
 				if (e.Kind == "call" || e.Kind == "invoke") && strings.Contains(e.CalleeName(), fmt.Sprintf("PutUint%d", pair.width*8)) && strings.Contains(e.CalleeName(), "bigEndian") {
 					okPut = true
 				}
+			}
+			if !okPut && handRolledBigEndian(pr, res, pair.width) {
+				okPut = true
 			}
 			if !okPut {
 				bad = append(bad, pair.w+" does not write a big-endian integer of that width")
@@ -603,4 +658,46 @@ func appendChain(t *Term) (*Term, []*Term, bool) {
 func isZeroInt(t *Term) bool {
 	v, ok := t.IntVal()
 	return ok && v == 0
+}
+
+// handRolledBigEndian: byte i of the returned array is the parameter shifted
+// right by 8*(width-1-i), for every i.
+func handRolledBigEndian(pr *PathResult, res *Term, width int64) bool {
+	var base *Term
+	switch {
+	case res.Op == "slice" && len(res.Args) > 0 && res.Args[0].Op == "alloc":
+		base = res.Args[0]
+	case res.Op == "make":
+		base = res
+	default:
+		return false
+	}
+	cells := map[int64]*Term{}
+	for k, loc := range pr.State.heapLoc {
+		if loc.Op == "ia" && loc.Args[0].Key() == base.Key() {
+			if i, ok := loc.Args[1].IntVal(); ok {
+				cells[i] = pr.State.heap[k]
+			}
+		}
+	}
+	for i := int64(0); i < width; i++ {
+		v := cells[i]
+		if v == nil {
+			return false
+		}
+		shift := int64(0)
+		t := stripConvTerm(v)
+		for t.Op == "bin" && t.Name == ">>" && len(t.Args) == 2 {
+			n, ok := stripConvTerm(t.Args[1]).IntVal()
+			if !ok {
+				return false
+			}
+			shift += n
+			t = stripConvTerm(t.Args[0])
+		}
+		if !(t.Op == "sym" && strings.HasPrefix(t.Name, "p:")) || shift != 8*(width-1-i) {
+			return false
+		}
+	}
+	return true
 }
